@@ -86,9 +86,9 @@ package store
 //@   requires wfCands(top)
 //@   modifies nothing
 //@   ensures result != nil && fresh(result) && len(result.Top) == len(top) && fresh(result.Top) && wfCands(result.Top)
-//@   ensures forall(a, 0, len(top), sameCand(result.Top[a], top[a]))
+//@   ensures forall(a, 0, len(top), sameCand(result.Top[a], top[a]) && fresh(result.Top[a]))
 //@   invariant @loop 0: 0 <= index && index <= len(top) && voteTop != nil && fresh(voteTop) && len(voteTop.Top) == len(top) && fresh(voteTop.Top) && wfCands(top)
-//@   invariant @loop 0: forall(a, 0, index, voteTop.Top[a] != nil && voteTop.Top[a].Total != nil && sameCand(voteTop.Top[a], top[a]))
+//@   invariant @loop 0: forall(a, 0, index, voteTop.Top[a] != nil && voteTop.Top[a].Total != nil && sameCand(voteTop.Top[a], top[a]) && fresh(voteTop.Top[a]))
 //@   invariant @loop 0: frameElems(*Candidate)
 //@   nopanic
 
@@ -137,3 +137,24 @@ package store
 //@   requires block != nil && block.Top != nil && block.CandidateTrieDB != nil && wfCands(block.Top.Top) && wfCands(changedCandidates) && max_candidate_count >= 1 && len(block.Top.Top) + len(changedCandidates) <= 1<<29
 //@   ensures block.Top != nil && wfCands(block.Top.Top)
 //@   ensures forall(i, 0, len(block.Top.Top), !has(unregisters, block.Top.Top[i].Address))
+
+// per-fork isolation of the published list (C10 "holds on every fork"): a child block starts from a DEEP COPY of its parent's list, so
+// nothing it later does to its own list (Rank rewrites the list object in place) is visible through the parent or a sibling
+//@ func (*AccountTrieDB).Clone   trusted
+//@   modifies nothing
+//@ func (*CandidateTrieDB).Clone   trusted
+//@   modifies nothing
+//@ func (*VoteTop).Clone
+//@   props C10
+//@   requires top != nil && wfCands(top.Top)
+//@   modifies nothing
+//@   ensures result != nil && fresh(result) && len(result.Top) == len(top.Top) && fresh(result.Top) && wfCands(result.Top)
+//@   ensures forall(a, 0, len(top.Top), sameCand(result.Top[a], top.Top[a]) && fresh(result.Top[a]))
+//@   nopanic
+//@ func NewNormalBlock
+//@   props C10
+//@   requires top != nil && wfCands(top.Top) && accountTrieDB != nil && candidateTrieDB != nil
+//@   modifies nothing
+//@   ensures result != nil && result.Top != nil && fresh(result.Top) && result.Top != top && fresh(result.Top.Top) && len(result.Top.Top) == len(top.Top)
+//@   ensures forall(a, 0, len(top.Top), sameCand(result.Top.Top[a], top.Top[a]) && fresh(result.Top.Top[a]))
+//@   nopanic
